@@ -59,6 +59,9 @@ SHAPES = [
     "query($x: Int) { %s }" % BODY, "query Q($x: Int = 3) { %s }" % BODY, "query @fold { %s }" % BODY, "query Q @bogus { %s }" % BODY,
     "{ %s %s }" % (BODY, BODY), "{ %s OneA { id @output(name: \"a\") } }" % BODY, "{ ...F }", "{ ... on Root { %s } }" % BODY, "{ ... { %s } }" % BODY,
     "{ %s } fragment F on Node { id }" % BODY, "fragment F on Node { id }", "{ Nodes { ...F } } fragment F on Node { id @output }", "fragment F on Node { id } fragment G on Node { id }",
+    # an operation followed by several fragment definitions (which of them the error points at must not depend on hashing)
+    "{ %s }\nfragment F on Node { id }\nfragment G on Node { id }" % BODY, "{ %s }\nfragment F on Node { id }\nfragment G on Node { id }\nfragment H on Node { id }" % BODY,
+    "fragment A1 on Node { id }\nfragment A2 on Node { id }\nfragment A3 on Node { id }\nfragment A4 on Node { id }\nfragment A5 on Node { id }\nquery { %s }" % BODY,
     "{ Nodes { ... on A { id @output(name: \"rid\") } } }", "{ Nodes { ... { id @output(name: \"rid\") } } }", "{ Nodes { ... on A { id @output(name: \"rid\") } name } }", "{ Nodes { name ... on A { id @output(name: \"rid\") } } }",
     "{ Nodes { ... on A { ... on A { id @output(name: \"rid\") } } } }", "{ Nodes { ... on A { id @output(name: \"rid\") } ... on B { id } } }", "{ Nodes { ... on Ghost { id @output(name: \"rid\") } } }",
     "{ Nodes { ... on A @optional { id @output(name: \"rid\") } } }", "{ Nodes { ... on A @filter(op: \"=\", value: [\"$v\"]) { id @output(name: \"rid\") } } }", "{ Nodes { ... on Root { id @output(name: \"rid\") } } }",
